@@ -145,6 +145,88 @@ def run_prog(shard, spec):
 
 TARGETS = [0x0000, 0x3FFE, 0x3FFF, 0x4000, 0xFFFF, 0x3FFD, 0x0001]
 
+def guard_interrupts(shard, spec, kinds, machine, ms, rom, rom_b):
+    """The push made when a maskable interrupt is accepted, with SP on and around the ROM/RAM boundary and the wrap: through
+    the accept_interrupt() API and through run(start, stop, interrupts=True) with the clock at the start of a frame."""
+    from skoolkit.pagingtracer import Memory
+    sps = [0x0000, 0x0001, 0x0002, 0x0003, 0x3FFE, 0x3FFF, 0x4000, 0x4001, 0x4002, 0xFFFF, 0x8000]
+    for kind in kinds:
+        m = machine(kind)
+        mem = m.sim.memory
+        logged = kind in ('py', 'pycmio')
+        for sp in sps:
+            for im in (0, 1, 2):
+                for ireg in (0x00, 0x3F, 0x80, 0xFF):           # IM 2 vector table in ROM, RAM, at the wrap
+                    for route in ('api', 'run'):
+                        for pc in (0x8000, 0x9ABC, 0xFFFF):
+                            regs = [0x5A] * 30
+                            regs[12], regs[13], regs[14], regs[15] = sp, 0, ireg, 0x7F
+                            regs[26], regs[27], regs[28], regs[29] = 1, im, 0, 0
+                            if route == 'api':
+                                regs[24], regs[25] = pc, 3
+                                mem[0x7000] = 0x00
+                            else:
+                                regs[24], regs[25] = pc, 69888 * 3 - 4       # the NOP ends exactly at the frame boundary
+                                mem[pc] = 0x00
+                            if logged:
+                                mem.log.clear()
+                            sims.set_regs(m.sim, regs)
+                            before = list(regs)
+                            try:
+                                if route == 'api':
+                                    took = m.sim.accept_interrupt(m.sim.registers, mem, 0x7000)
+                                else:
+                                    if im == 2:
+                                        va = 256 * ireg + 255
+                                        stop = mem[va] + 256 * mem[(va + 1) & 0xFFFF]
+                                    else:
+                                        stop = 56
+                                    with harness.time_limit(20):
+                                        m.sim.run(pc, stop, True)      # stops on arrival at the interrupt routine
+                                    took = None
+                            except harness.CaseTimeout:
+                                shard.violation('%s: run(%d, %d, interrupts=True) did not reach the interrupt routine (SP=%d IM=%d I=%d)' % (kind, pc, stop, sp, im, ireg),
+                                                {'part': 'guard', 'interrupt': [sp, im, ireg, route, pc], 'kind': kind})
+                                ms.pop(kind, None)
+                                m = machine(kind)
+                                mem = m.sim.memory
+                                continue
+                            except Exception as e:
+                                shard.violation('%s raised %r accepting an interrupt (%s) with SP=%d IM=%d I=%d' % (kind, e, route, sp, im, ireg),
+                                                {'part': 'guard', 'interrupt': [sp, im, ireg, route, pc], 'kind': kind})
+                                continue
+                            after = m.regs
+                            shard.inc('monitor:interrupt_pushes')
+                            err = reg_invariant(before, after)
+                            if route == 'api' and not took:
+                                err = err or 'accept_interrupt refused although the previous instruction was a NOP'
+                            if after[12] == (sp - 2) & 0xFFFF:
+                                shard.inc('observed:interrupt_accepted_sp_moved')
+                            if logged:
+                                for a, v in mem.log:
+                                    if not (isinstance(v, int) and 0 <= v <= 255):
+                                        err = 'memory[%d] = %r' % (a, v)
+                                    if a < 0x4000:
+                                        err = 'ROM modified at [%d]' % a
+                            else:
+                                romnow = mem[:0x4000]
+                                if romnow != rom_b:
+                                    err = 'ROM modified at %s' % [a for a in range(0x4000) if romnow[a] != rom_b[a]][:4]
+                            if err:
+                                shard.violation('%s: %s after accepting an interrupt (%s) with SP=%d IM=%d I=%d PC=%d' % (kind, err, route, sp, im, ireg, pc),
+                                                {'part': 'guard', 'interrupt': [sp, im, ireg, route, pc], 'kind': kind, 'flavour': spec.get('flavour', 'plain')})
+                                for a in range(0x4000):
+                                    if logged:
+                                        list.__setitem__(mem, a, rom[a])
+                                    else:
+                                        mem[a] = rom[a]
+                            for a in (sp - 2, sp - 1, sp, pc, 0x7000):
+                                if a & 0xFFFF >= 0x4000:
+                                    mem[a & 0xFFFF] = 0
+                            if logged:
+                                mem.log.clear()
+                            shard.case(('guard-int', kind, sp, im, ireg, route, pc), True)
+
 def run_guard(shard, spec):
     from vk.props.c07 import sequences
     seqs = list(sequences())
@@ -159,6 +241,8 @@ def run_guard(shard, spec):
             ms[kind] = sims.Machine(kind, base, [0] * 30, 0, True, 0, logmem=True)
         return ms[kind]
     storing = set()
+    if spec['shard'] == 0:
+        guard_interrupts(shard, spec, kinds, machine, ms, rom, rom_b)
     for ci, (table, seq) in enumerate(seqs):
         if ci % spec['of'] != spec['shard']:
             continue
@@ -506,7 +590,7 @@ def run(shard, spec):
 def finalize(agg, tier):
     probs = []
     c = agg['counters']
-    for k in ('monitor:invariant_evaluations', 'monitor:guard_steps', 'monitor:port_writes', 'monitor:probe_reads', 'monitor:id_stores', 'observed:ram_stores'):
+    for k in ('monitor:invariant_evaluations', 'monitor:guard_steps', 'monitor:interrupt_pushes', 'observed:interrupt_accepted_sp_moved', 'monitor:port_writes', 'monitor:probe_reads', 'monitor:id_stores', 'observed:ram_stores'):
         if not c.get(k):
             probs.append('monitor %s observed nothing' % k)
     if c.get('observed:storing_slot_target_pairs', 0) < 500:
